@@ -63,8 +63,8 @@ struct H : drv::Harness
 			for (; checked < w.out.size(); ++checked)
 			{
 				const Msg& m = w.out[checked].m; long seq = m.num(34);
-				if (m.possdup()) { sim::count("wire_possdup"); continue; }
 				if (m.gapfill()) { long n = m.num(36); if (n > expect_next) expect_next = n; sim::count("wire_gapfill"); continue; }
+				if (m.possdup()) { sim::count("wire_possdup"); continue; }
 				activity = true;
 				auto it = new_by_seq.find(seq);
 				if (it != new_by_seq.end() && it->second != m.raw && is16)
